@@ -149,12 +149,16 @@ def _relion_frame(env, version, ids, names="numbers", halfsets=True):
     return rows, df, on
 
 
-def h_import(env, version=3.1, ids="a", names="numbers", via="class", halfsets=True):
+def h_import(env, version=3.1, ids="a", names="numbers", via="class", halfsets=True, auto_version=False, drop_tomo_col=False):
     cm = env.module("cryomotl")
     rows, rdf, on = _relion_frame(env, version, ids, names, halfsets)
     px = env.real("pixel", 0.1, 20)
+    if drop_tomo_col:
+        rdf = rdf.drop(columns=["rlnTomoName" if version >= 4.0 else "rlnMicrographName"])
     if via == "class":
-        rm = cm.RelionMotl(rdf, version=version, pixel_size=px)
+        rm = cm.RelionMotl(rdf, version=(None if auto_version else version), pixel_size=px)
+        if auto_version:
+            env.check("version_recognised_from_columns", env.true() if float(rm.version) == float(version) else _false(env))
         mdf = rm.df
     else:
         mdf = cm.relion2emmotl(rdf, relion_version=version, pixel_size=px).df
@@ -337,7 +341,10 @@ def jobs(tier, seed):
           ("h_import", {"version": 3.1, "ids": "a", "names": "strings_dirs"}),
           ("h_import", {"version": 4.0, "ids": "b", "names": "strings_dirs"}),
           ("h_import", {"version": 3.0, "ids": "a", "via": "relion2emmotl", "halfsets": False}),
-          ("h_import", {"version": 3.1, "ids": "b", "via": "relion2emmotl"}), ("h_import", {"version": 4.0, "ids": "a", "names": "strings", "via": "relion2emmotl"}),
+          ("h_import", {"version": 3.1, "ids": "b", "via": "relion2emmotl"}),
+          ("h_import", {"version": 3.0, "ids": "b", "names": "numbers", "auto_version": True}), ("h_import", {"version": 3.1, "ids": "a", "names": "strings", "auto_version": True}),
+          ("h_import", {"version": 4.0, "ids": "b", "names": "strings", "auto_version": True}),
+          ("h_import", {"version": 3.1, "ids": "a", "names": "strings", "drop_tomo_col": True}), ("h_import", {"version": 4.0, "ids": "b", "names": "strings", "drop_tomo_col": True}), ("h_import", {"version": 4.0, "ids": "a", "names": "strings", "via": "relion2emmotl"}),
           ("h_roundtrip", {"version": 3.1, "ids": "b", "tomo_format": "TS_$xxx.rec", "subtomo_format": "subtomo/T_$xxxx/T$xxxx_$yyyyy_7.40A.mrc"}),
           ("h_roundtrip", {"version": 4.0, "ids": "b", "tomo_format": "TS_$xxx", "subtomo_format": "TS_$xxx/$y"})]
     j += [("h_via_file", {"version": 3.1, "optics": True}), ("h_via_file", {"version": 4.0, "optics": True}), ("h_via_file", {"version": 3.0, "optics": False}),
